@@ -117,6 +117,17 @@ CHECKS = {
         note='Trusted: z3, CrossHair; numpy.iscomplex semantics (imaginary part non-zero); dimension <= 3, lengths <= 8.',
         technique=TECH + '; CrossHair for integer/string guards',
         design='3/C11'),
+    'C12': dict(
+        text='RESTRICTED sub-claim, solver verdict on the real Bicomplex class with four symbolic real components per operand: '
+             '+ - * neg conjugate dot and integer powers (-3..5, _pow_singular) equal the idempotent decomposition e1 f(z1-iz2) + '
+             'e2 f(z1+iz2) for all component values (polynomial / rational identities); exp sin cos sinh cosh expm1 equal the '
+             'decomposition oracle as consequences of the addition theorems (complex functions uninterpreted, axioms applied as '
+             'oriented rewrites, identities decided by z3); log1p is consistent with the library log of 1+zeta; reduction on z2=0. '
+             'log, sqrt, non-integer powers, division, tan family and all inverse functions are NOT covered.',
+        note='Trusted: z3 arithmetic normaliser and nlsat; the listed addition-theorem axioms; counterexamples are confirmed '
+             'numerically against numpy complex functions at random points.',
+        technique=TECH + ' (QF_UFNRA with instantiated addition-theorem axioms)',
+        design='3/C12'),
     'C13': dict(
         text='Bounded solver verdict on the real dea3 executed on symbolic arrays: for ALL real inputs abserr>=0 and '
              'abserr>=|result-v2| (hence honest against any X the inputs are within t of), element independence, inputs '
